@@ -143,7 +143,7 @@ class Prover:
         s = z3.Solver()
         s.add(*pre)
         s.add(negated_claim)
-        return s.to_smt2()
+        return '(set-logic ALL)\n'+s.to_smt2()
 
 
 def spec_of(s, pat):
